@@ -395,8 +395,9 @@ static void cmd_params(int sid, uint32_t k, uint32_t r, uint32_t len, uint32_t m
 	g_hook_have = 0;
 	uint64_t seed_before = of_seed;
 	of_status_t st = set_params_raw(s, sid, k, r, len, m, N1, seed);
-	jb_printf("{\"e\":\"SetParams\",\"x\":%ld,\"s\":%d,\"codec\":%d,\"role\":\"%s\",\"k\":%u,\"r\":%u,\"len\":%u,\"m\":%u,\"N1\":%u,\"seed\":%d,\"payload\":\"%s\",\"raw\":%d",
-		  g_exec, sid, s->codec, s->role == 1 ? "enc" : "dec", k, r, len, m, N1, seed, payload ? "rnd" : "id", raw);
+	jb_printf("{\"e\":\"SetParams\",\"x\":%ld,\"s\":%d,\"codec\":%d,\"role\":\"%s\",\"k\":%d,\"r\":%d,\"len\":%d,\"m\":%u,\"N1\":%u,\"seed\":%d,\"payload\":\"%s\",\"raw\":%d",
+		  g_exec, sid, s->codec, s->role == 1 ? "enc" : "dec", (int)(k > 0x7FFFFFFF ? -1 : k), (int)(r > 0x7FFFFFFF ? -1 : r), (int)(len > 0x7FFFFFFF ? -1 : len), m, N1, seed, payload ? "rnd" : "id", raw);
+	jb_printf(",\"kw\":[%u,%u],\"rw\":[%u,%u],\"lw\":[%u,%u]", k >> 16, k & 0xFFFF, r >> 16, r & 0xFFFF, len >> 16, len & 0xFFFF);
 	(void)seed_before;
 	if (st == OF_STATUS_OK && !raw) {
 		s->configured = 1;
@@ -552,6 +553,15 @@ static void run_line(char *line)
 		of_status_t st = of_create_codec_instance(&s->ses, (of_codec_id_t)s->codec, s->role == 1 ? OF_ENCODER : OF_DECODER, 0);
 		LIB_LEAVE();
 		jb_printf("{\"e\":\"Create\",\"x\":%ld,\"s\":%d,\"codec\":%d,\"role\":\"%s\",\"null\":%d", g_exec, sid, s->codec, s->role == 1 ? "enc" : "dec", s->ses == NULL);
+		if (s->ses && st == OF_STATUS_OK) {
+			/* advertised limits (OF_CTRL_GET_MAX_K / MAX_N); the GF(2^m) codec only knows them once m is set */
+			UINT32 mk = 0, mn = 0; of_status_t s1, s2;
+			LIB_ENTER(sid);
+			s1 = of_get_control_parameter(s->ses, OF_CTRL_GET_MAX_K, &mk, sizeof mk);
+			s2 = of_get_control_parameter(s->ses, OF_CTRL_GET_MAX_N, &mn, sizeof mn);
+			LIB_LEAVE();
+			jb_printf(",\"maxk\":%d,\"maxn\":%d", s1 == OF_STATUS_OK ? (int)mk : -1, s2 == OF_STATUS_OK ? (int)mn : -1);
+		}
 		emit_common(NULL, sid, st); jb_printf("}\n"); jb_flush();
 	} else if (!strcmp(op, "params") || !strcmp(op, "rawparams")) {
 		int raw = !strcmp(op, "rawparams");
@@ -708,7 +718,7 @@ int main(int argc, char **argv)
 	g_progress = mmap(NULL, 4096, PROT_READ | PROT_WRITE, MAP_SHARED | MAP_ANONYMOUS, -1, 0);
 	g_progress[0] = 0;  /* index of the line at which the next child starts */
 	g_progress[1] = 0;  /* execution counter */
-	int timeout_s = getenv("OF_DRIVER_EXEC_TIMEOUT") ? atoi(getenv("OF_DRIVER_EXEC_TIMEOUT")) : 60;
+	int timeout_s = getenv("OF_DRIVER_EXEC_TIMEOUT") ? atoi(getenv("OF_DRIVER_EXEC_TIMEOUT")) : 300;
 	while ((size_t)g_progress[0] < nl) {
 		pid_t pid = fork();
 		if (pid == 0) {
